@@ -93,7 +93,7 @@ class Driver:
             if sw.st != 'run' or not sw.inbox:
                 return
             x, tag = sw.inbox.pop(0)
-            if x in self.scn['poison'] or w in self.scn['bad']:
+            if x in self.scn['poison'] or (w in self.scn['bad'] and sw.counter >= self.scn.get('bad_after', 0)):
                 sw.counter_end()
             else:
                 sw.emit(x if self.genuine(x, tag) else -x)
@@ -170,6 +170,13 @@ class ScriptedWorker:
         self.cur = x
         if self.st == 'run':
             self.inbox.append((x, tag))
+            if getattr(self.drv, 'kill_on_enqueue', None) == self.id:
+                # this worker still owes answers to an abandoned run and dies (bare EOF) once the new run has filled its
+                # slots (the pool will not talk to it again before it reads from it)
+                self.drv.kill_countdown -= 1
+                if self.drv.kill_countdown <= 0:
+                    self.drv.kill_on_enqueue = None
+                    self.kill()
             return
         if self.st == 'dying':
             i = len(self.drv.real_cis)
@@ -288,6 +295,11 @@ def run_real(scn, h, cis):
         n2 = scn['n'] or 2
         drv.budget += 40 * (n2 + 3) * (len(scn['W']) + 1)
         drv.deviated = True
+        if scn.get('second_kill'):
+            owing = [w for w, sw in sorted(drv.workers.items()) if sw.st == 'run' and sw.inbox]
+            if owing and len([sw for sw in drv.workers.values() if sw.st == 'run']) > 1:
+                drv.kill_on_enqueue = owing[0]
+                drv.kill_countdown = scn['extra'] + 1
         try:
             r2 = p.run(iter(range(101, 101 + n2)), worker_extra_pending_inputs=scn['extra'])
             second = {'outcome': 'ok', 'ret': [x - 100 if (isinstance(x, int) and 101 <= x <= 100 + n2) else 0 for x in (r2 or [])], 'n': n2}
@@ -330,11 +342,12 @@ def _configs(tier):
     c = []
 
     def add(label, W=(1, 2), n=3, extra=1, retry=True, poison=(), bad=(), kills=1, refuse=None, refname='NoPairs', mc=True,
-            retres=True, callsrc=False):
-        kw = dict(W='{%s}' % ', '.join(map(str, W)), N=str(n), Extra=str(extra), Retry='TRUE' if retry else 'FALSE',
+            retres=True, callsrc=False, bad_after=0):
+        kw = dict(BadAfter=str(bad_after), W='{%s}' % ', '.join(map(str, W)), N=str(n), Extra=str(extra), Retry='TRUE' if retry else 'FALSE',
                   Poison='{%s}' % ', '.join(map(str, poison)), Bad='{%s}' % ', '.join(map(str, bad)),
                   MaxKills=str(kills), Refuse=refname, RetRes='TRUE' if retres else 'FALSE', CallSrc='TRUE' if callsrc else 'FALSE')
         c.append((label, kw, _scn(W, n, extra, retry, poison, bad, refuse or (), retres, callsrc), mc))
+        c[-1][2]['bad_after'] = bad_after
     add('W2 N3 extra1 kill1')
     add('W2 N3 extra1 poison{2} bad{1} kill1', poison=(2,), bad=(1,))
     add('W2 N3 extra1 noretry poison{2} kill1', retry=False, poison=(2,))
@@ -343,7 +356,7 @@ def _configs(tier):
     add('W3 N2 extra0 bad{1} kill1', W=(1, 2, 3), n=2, extra=0, bad=(1,))
     # a worker that answers, then dies on a poison input, is offered its next input while it is dying (BrokenPipe, still alive)
     # and a healthy worker finishes the run: the input whose enqueue failed must not get lost
-    add('W2 N5 extra1 poison{4}', n=5, poison=(4,), kills=0)
+    add('W2 N5 extra1 bad{2} after its first answer', n=5, bad=(2,), bad_after=1, kills=0)
     # return_results=False (results only through the callback) and a per-worker input callable as second source
     add('W2 N3 extra1 poison{2} kill1 return_results=False', poison=(2,), retres=False)
     add('W2 N3 extra1 poison{2} kill1 per-worker callable', poison=(2,), callsrc=True)
@@ -367,6 +380,8 @@ def _configs(tier):
     c[-1][2].update(abort_after=1, second_run=True)
     add('W2 N4 extra1 aborted after 1 result, aborted again at once, then run', n=4, kills=0, mc=False)
     c[-1][2].update(abort_after=1, abort_twice=True, second_run=True)
+    add('W2 N4 extra1 aborted after 1 result, then a worker owing answers dies during the next run', n=4, kills=0, mc=False)
+    c[-1][2].update(abort_after=1, second_run=True, second_kill=True)
     add('W1 N3 extra2 aborted after 1 result, aborted again at once, then run', W=(1,), n=3, extra=2, kills=0, mc=False)
     c[-1][2].update(abort_after=1, abort_twice=True, second_run=True)
     add('W2 N3 refuse(1,1) noretry', retry=False, kills=0, refuse=[(1, 1)], refname='Ref_w1_x1', mc=False)
@@ -391,6 +406,7 @@ CONSTANTS
   Retry = TRUE
   Poison = %s
   Bad = {}
+  BadAfter = 0
   MaxKills = 2
   Refuse <- NoPairs
   MaxDyRaise = 2
